@@ -85,6 +85,7 @@ class EEMSWrite(SameArrayShapeMixin, Command):
             params.ResultParameter(params.DataParameter())
         ),
     }
+    output = params.BooleanParameter()
 
     def execute(self, **kwargs):
         commands = kwargs["OutFieldNames"]
@@ -102,3 +103,5 @@ class EEMSWrite(SameArrayShapeMixin, Command):
             out_arr = out_arr.transpose([1, 0])
 
             writer.writerows(out_arr[i, :] for i in range(out_arr.shape[0]))
+
+        return True
